@@ -134,6 +134,11 @@ class Interp(OpsMixin, BuiltinsMixin):
             raise Unsupported("vacuous: requires unsatisfiable")
         self.func_stack.append((info.qualname.split(".")[-1], info, None))
         outcome = None
+        from .ops import _has_yield
+
+        top_gen = _has_yield(fn)
+        if top_gen:
+            self.collectors.append(Collector())
         try:
             self.exec_body(extract.strip_docstring(fn.body), env)
             outcome = ("return", None)
@@ -141,6 +146,12 @@ class Interp(OpsMixin, BuiltinsMixin):
             outcome = ("return", r.value)
         except RaiseSig as r:
             outcome = ("raise", r)
+        if top_gen and outcome[0] == "return":
+            col = self.collectors.pop()
+            if col.seq is not None:
+                outcome = ("return", SStr(col.seq, "str") if col.kind == "str" else SSeq(col.seq, "gen"))
+            else:
+                outcome = ("return", SList(col.items))
         self.check_exit(outcome, env)
 
     def entry_env(self, result=None, exc=None):
@@ -213,8 +224,10 @@ class Interp(OpsMixin, BuiltinsMixin):
                 ename, cond = allowed
                 if cond is not None and cond is not True:
                     run.oblige("exceptional-postcondition", self.spec_bool(cond, senv), f"{exc.cls.name} only when {cond}", sig.lineno)
-                else:
-                    self.run.x.stats["obligations_generated"] += 0
+                elif run.past_prefix:
+                    run.x.stats["obligations_generated"] += 1
+                    run.x.stats["trivial"] += 1
+                    run.x.record_trivial("exceptional-postcondition", f"{exc.cls.name} is an allowed outcome here", sig.lineno)
             if c.atomic and self.first_self_write is not None:
                 run.oblige(
                     "exception-atomicity",
